@@ -17,8 +17,11 @@ RULE = ("catalogue (one prefix of every length 0..32 / 0..128 with host bits set
         "addresses, 1..9 disjoint prefixes probed at every index, malformed loader lines) + seeded random prefix "
         "multisets grown from a few v4/v6/v4-mapped seeds by split/descend/ancestor/sibling/neighbour/same-base/duplicate "
         "steps, rendered in a random family with random host bits and spellings, loaded through List.Append (single and "
-        "variadic), LoadFromReader (comments, blank lines, CRLF), LoadFromText, ip_set.NewIPSet (ips, files, referenced "
-        "sets) and re-sorted after a second load; probes = lo-1, lo, hi, hi+1 of the loaded prefixes as IPv4 or IPv6 "
+        "variadic), LoadFromReader (comments, blank lines, CRLF), LoadFromText, ip_set.NewIPSet (ips, files) and re-sorted after a second load; "
+        "compositions of ip_set plugins built bottom-up through the real constructor and coremain test plumbing (own ips/files "
+        "+ 1..3 referenced sets, each referencing up to 2-3 further sets, sometimes a third level; every member with prefixes "
+        "of its own v4/v6/mapped region plus occasional shared ones; probes at first/last/inner address of and just outside "
+        "prefixes of every member, asked through the top set's MatcherGroup.Match); probes = lo-1, lo, hi, hi+1 of the loaded prefixes as IPv4 or IPv6 "
         "plus random ones; a case is non-trivial when two loaded prefixes are duplicates, nested or adjacent AND a probe "
         "is within 1 of a prefix boundary; distinct = distinct Gallina literal")
 ASSUMPTIONS = [
@@ -38,7 +41,8 @@ LEVEL_TEXT = ("Theorems in coq/Properties/C13.v, for every finite list of IPv4/I
               "host bits set or not, nested, adjacent, duplicated, any load order), for EVERY permutation the unstable sort "
               "may produce that is ordered by address, and for every address: the binary search of Contains terminates and "
               "answers yes exactly when one of the loaded prefixes covers the address; the answer depends only on the set of "
-              "loaded entries; re-sorting after further loads and the ip_set plugin's union of sets behave the same; an IPv4 "
+              "loaded entries; re-sorting after further loads behaves the same; an ip_set composed of own ips/files and "
+              "referenced sets, to any depth of referencing, matches exactly the union of everything loaded below it; an IPv4 "
               "rule/query and its IPv4-mapped IPv6 form are identical, an IPv4 rule covers no other IPv6 address, a bare "
               "address covers itself only. The model is run inside Coq on every case the Go driver observed on the real "
               "List, text loaders and ip_set plugin (Judge.C13.agree) and an independent interval oracle judges the "
